@@ -1,6 +1,7 @@
 import SnaxVerif.Lemmas.PostInduct
 import SnaxVerif.Props.C03
 import SnaxVerif.Lemmas.Matcher
+import SnaxVerif.Lemmas.CheckSpecs
 /-!
 # C16 — returned schedules fit the accelerator template
 
@@ -99,6 +100,63 @@ theorem C16_scheduler (mtch : Template → Schedule → Except Err Bool) (checks
 example : backtrack matchesQ [isPureOutputStationary] ⟨[some 4], [⟨[[1]], [0]⟩]⟩ 12 ⟨[6], [⟨[[1]], [0]⟩]⟩ 1 = .ok [] := by
   decide +kernel
 
+/-! ### what the requested constraints mean for every returned schedule -/
+
+/-- `is_pure_output_stationary` (as modelled) implies its loop-level meaning: among the temporal loops no loop
+that keeps the output index fixed encloses one that moves it. -/
+theorem stationary_means (t : Template) (s : Schedule) (o : Operand)
+    (h : isPureOutputStationary t s = true) (ho : s.ops.getLast? = some o) :
+    OutputStationary (temporalCount t.n s.n) o := isPureOutputStationary_spec t s o h ho
+
+/-- `is_memory_flexible_enough` (as modelled) implies its meaning: when there are temporal loops, every operand
+with a known element size has a dimension with a unit spatial stride whose temporal strides are multiples of
+the elements per 8-byte bank. -/
+theorem granularity_means (sizes : List Nat) (t : Template) (s : Schedule)
+    (h : isMemoryFlexibleEnough sizes t s = true) (hn : s.n > t.n) :
+    ∀ p ∈ s.ops.zip sizes, Packable (temporalCount t.n s.n) t.n (perBank p.2) p.1 :=
+  isMemoryFlexibleEnough_spec sizes t s h hn
+
+/-- **Every schedule returned under the requested constraints satisfies their meaning** (not merely the code's
+own predicate): for the exact matcher and any combination of the two constraints. -/
+theorem C16_returned_constraints (useStationary : Bool) (memSizes : Option (List Nat))
+    (tmpl : Template) (fuel : Nat) (s : Schedule) (rs : List Schedule) (hwf : WF s)
+    (h : backtrack matchesQ (realChecks useStationary memSizes) tmpl fuel s 1 = .ok rs) :
+    ∀ r ∈ rs, 1 ≤ r.n →
+      (useStationary = true → ∀ o, r.ops.getLast? = some o →
+        OutputStationary (temporalCount (tInnerRaw r.n tmpl).n r.n) o) ∧
+      (∀ sz, memSizes = some sz → r.n > (tInnerRaw r.n tmpl).n →
+        ∀ p ∈ r.ops.zip sz, Packable (temporalCount (tInnerRaw r.n tmpl).n r.n) (tInnerRaw r.n tmpl).n (perBank p.2) p.1) := by
+  intro r hr hn
+  obtain ⟨_, hchk⟩ := C16_post_self matchesQ _ tmpl fuel s rs hwf matchesQ_opsOnly
+    (realChecks_opsOnly useStationary memSizes) h r hr hn
+  refine ⟨?_, ?_⟩
+  · intro hu o ho
+    subst hu
+    exact isPureOutputStationary_spec _ r o (hchk _ (stationary_mem_realChecks _)) ho
+  · intro sz hsz hgt
+    subst hsz
+    exact isMemoryFlexibleEnough_spec sz _ r (hchk _ (memflex_mem_realChecks _ _)) hgt
+
+/-- `AutoflowScheduler` (the `dart-scheduler` pass on one operation: canonicalize, then the first schedule found
+under both default constraints): the emitted schedule satisfies every post-condition, at every level. -/
+theorem C16_autoflow (sizes : List Nat) (tmpl : Template) (fuel : Nat) (s r : Schedule) (hwf : WF s)
+    (h : autoflow sizes tmpl fuel s = .ok (some r)) :
+    ∀ j, 1 ≤ j → j ≤ r.n →
+      matchesQ (tInnerRaw j tmpl) (innerRaw j r) = .ok true ∧
+      isPureOutputStationary (tInnerRaw j tmpl) (innerRaw j r) = true ∧
+      isMemoryFlexibleEnough sizes (tInnerRaw j tmpl) (innerRaw j r) = true ∧
+      (templateBound tmpl j ≠ 0 → r.bounds.getD (r.n - j) 0 ≤ templateBound tmpl j) := by
+  unfold autoflow at h
+  split at h
+  · cases h
+  · next rs hb =>
+    simp only [Except.ok.injEq] at h
+    have hmem : r ∈ rs := List.mem_of_mem_head? h
+    have hb' : backtrack matchesQ (realChecks true (some sizes)) tmpl fuel (canonicalize s) 1 = .ok rs := hb
+    intro j hj1 hjn
+    obtain ⟨h1, h2, h3, h4⟩ := C16_post_real true (some sizes) tmpl fuel (canonicalize s) rs (WF_maskSched hwf) hb' r hmem j hj1 hjn
+    exact ⟨h1, h2 rfl, h3 sizes rfl, h4⟩
+
 /-- **Soundness of the exact matcher**: whenever `matchesQ` accepts, template and schedule have the same
 number of operands, the schedule has at least the template's dims, and for every operand the template's
 (non-broadcast) rows and the schedule's rows restricted to the template dims span the same rational
@@ -111,6 +169,32 @@ theorem matchesQ_sound (t : Template) (s : Schedule) (h : matchesQ t s = .ok tru
   · simp at h
   · next hl => exact ⟨by simpa using hl, matchOps_sound t.n s.n t.ops s.ops h⟩
 
+/-- **Exactness of the model's matcher** ("accepts exactly the patterns that span the same index subspace as
+the template"): whenever `matchesQ` answers, the answer is `true` IF AND ONLY IF template and schedule have
+the same number of operands and every operand fits (`OperandFits`: schedule has at least the template's dims
+and the participating template rows and the schedule rows restricted to the template dims span the same
+rational subspace).  Acceptance is backed by re-checked integer combinations, rejection by re-checked
+orthogonal vectors; `matchesQ` never guesses (`.error .certificate` if a certificate search failed, which the
+correspondence has never observed). -/
+theorem matchesQ_exact (t : Template) (s : Schedule) (b : Bool) (h : matchesQ t s = .ok b) :
+    (b = true ↔ (t.ops.length = s.ops.length ∧ ∀ p ∈ t.ops.zip s.ops, OperandFits t.n s.n p.1 p.2)) := by
+  unfold matchesQ at h
+  split at h
+  · next hl =>
+    simp only [Except.ok.injEq] at h
+    subst h
+    exact ⟨(fun hf => by cases hf), fun hs => absurd hs.1 (by simpa using hl)⟩
+  · next hl =>
+    have := matchOps_exact t.n s.n t.ops s.ops b h
+    exact ⟨fun hb => ⟨by simpa using hl, this.mp hb⟩, fun hs => this.mpr hs.2⟩
+
+/-- rejection is as trustworthy as acceptance -/
+theorem matchesQ_reject_sound (t : Template) (s : Schedule) (h : matchesQ t s = .ok false) :
+    ¬ (t.ops.length = s.ops.length ∧ ∀ p ∈ t.ops.zip s.ops, OperandFits t.n s.n p.1 p.2) := by
+  intro hs
+  have := (matchesQ_exact t s false h).mpr hs
+  cases this
+
 /-- "Accepts exactly the patterns that span the same subspace", for a matcher `m` on row lists. -/
 def matches_exact_statement (m : List Vec → List Vec → Bool) : Prop :=
   ∀ A B, m A B = true ↔ SameRowSpace A B
@@ -119,7 +203,8 @@ def matches_exact_statement (m : List Vec → List Vec → Bool) : Prop :=
 def d27A : List Vec := [[0, -167606, -1], [0, 1, 1]]
 def d27B : List Vec := [[0, 167604, -1], [0, -167606, 1]]
 
-theorem d27_same_space : SameRowSpace d27A d27B := sameRowSpaceB_sound _ _ (by decide)
+theorem d27_same_space : SameRowSpace d27A d27B :=
+  (sameRowSpaceD_exact d27A d27B true (by decide +kernel)).mp rfl
 
 /-- … so any matcher that rejects it (the harness observes that `same_nonzero_singular_vectors` does, on
 every run) is not exact.  Clause excluded from the correspondence claim: `EntriesBelow 1000`. -/
@@ -129,6 +214,23 @@ theorem matches_exact_fails (m : List Vec → List Vec → Bool) (hobs : m d27A 
   have := (hex d27A d27B).mpr d27_same_space
   rw [hobs] at this
   exact Bool.noConfusion this
+
+/-- D27, other direction (|entries| ≈ 7·10⁵): a rank-2 template against a rank-1 schedule: DIFFERENT row spaces
+(certified by an orthogonal vector) … -/
+def d27C : List Vec := [[0, 573060], [-348861, 396003]]
+def d27D : List Vec := [[-697722, -792006], [-697722, -792006]]
+
+theorem d27_different_space : ¬ SameRowSpace d27C d27D :=
+  fun hs => by
+    have := (sameRowSpaceD_exact d27C d27D false (by decide +kernel)).mpr hs
+    cases this
+
+/-- … so any matcher that accepts it (the harness observes that `same_nonzero_singular_vectors` does: a FALSE
+POSITIVE, the scheduler could take an invalid candidate) is not exact. -/
+theorem matches_exact_fails_false_positive (m : List Vec → List Vec → Bool) (hobs : m d27C d27D = true) :
+    ¬ matches_exact_statement m := by
+  intro hex
+  exact d27_different_space ((hex d27C d27D).mp hobs)
 
 /-! ### non-vacuity -/
 
